@@ -1,6 +1,7 @@
 /- line-protocol driver for the C10 models (same operations as harness/pure/src/bin/c10.rs) -/
 import Compio.Model.View
 import Compio.Model.ViewVec
+import Compio.Model.ViewOps
 
 open Compio Compio.View
 
@@ -14,6 +15,10 @@ def parseKind : String → Option Kind
   | "arrayvec" => some .arrayvec
   | "smallvec" => some .smallvec
   | "pool" => some .pool
+  -- wrappers that forward every call (`impl … for &'static mut B`, `Box<B>`)
+  | "sref" => some .boxed      -- `&'static mut [u8]`
+  | "refvec" => some .vec      -- `&'static mut Vec<u8>`
+  | "boxvec" => some .vec      -- `Box<Vec<u8>>`
   | _ => none
 
 def parseEnd (s : String) : Option (Option Nat) :=
@@ -35,12 +40,14 @@ def showBuf (v : Buf) : String :=
 
 /-- a root the real containers can have: fixed-size kinds are always full -/
 def mkRoot (k : Kind) (len : Nat) (mem : Bytes) : Option Root :=
-  if len ≤ mem.length ∧ ((k = .arr ∨ k = .boxed) → len = mem.length) then some ⟨k, len, mem⟩ else none
+  if len ≤ mem.length ∧ ((k = .arr ∨ k = .boxed) → len = mem.length) ∧ (k = .smallvec → 8 ≤ mem.length)
+  then some ⟨k, len, mem⟩ else none
 
 inductive St where
   | none
   | buf (v : Buf) (reader : Bool)
   | vec (v : VBuf) (nest : Bool)
+  | ro (v : Buf) (reader : Bool)
   | viter (it : VIter) (nest : Bool)
 
 /-- constructors consume the buffer: a panic leaves nothing; other faults leave the state as it was -/
@@ -49,8 +56,76 @@ def viewOp (v : Buf) (consuming : Bool) (r : Res Buf) : St × String :=
   | .ok v' => (.buf v' false, showBuf v')
   | .error f => (if consuming then .none else .buf v false, showFault f)
 
+def showNatR (r : Res (Nat × Nat)) (f : Nat × Nat → Nat) : String :=
+  match r with
+  | .ok p => toString (f p)
+  | .error e => showFault e
+
+def showBoolR : Res Bool → String
+  | .ok b => if b then "1" else "0"
+  | .error e => showFault e
+
+/-- `buf_len`, `buf_capacity`, `is_empty`, `is_filled`, `buf_ptr`, `buf_mut_ptr`, `as_mut_slice` -/
+def showQuery (v : Buf) : String :=
+  let empty : Res Bool := match v.asInit with
+    | .ok (_, l) => .ok (l == 0)
+    | .error e => .error e
+  s!"q len={showNatR v.asInit (·.2)} cap={showNatR v.asUninit (·.2)} empty={showBoolR empty} filled={showBoolR v.isFilled} ptr={showNatR v.asInit (·.1)} mptr={showNatR v.asUninit (·.1)} ms={showRange v.asMutSlice}"
+
+def parseAns (s : String) : Option (Option Nat) := s.toNat?.map some
+
+def reserveOp (v : Buf) (n : Nat) (exact : Bool) (ans : Option Nat) : St × String :=
+  match v.reserveWith n exact ans with
+  | .done v' .ok => (.buf v' false, "res:ok " ++ showBuf v')
+  | .done v' (.mismatch r) => (.buf v' false, s!"res:mismatch:{r} " ++ showBuf v')
+  | .notSupported => (.buf v false, "res:unsupported")
+  | .failed => (.buf v false, "res:failed")
+  | .needCap => (.buf v false, "res:need-cap")
+  | .badCap => (.buf v false, "res:bad-cap")
+  | .skip => (.buf v false, "res:skip")
+
+def extendOp (v : Buf) (d : Bytes) (ans : Option Nat) : St × String :=
+  match v.extendWith d ans with
+  | .done v' => (.buf v' false, "ext:ok " ++ showBuf v')
+  | .notSupported => (.buf v false, "ext:unsupported")
+  | .grow => (.buf v false, "ext:grow")
+  | .fault f => (.buf v false, "ext:" ++ showFault f)
+
 def bufOp (v : Buf) (w : List String) : St × String :=
   match w with
+  | ["query"] => (.buf v false, showQuery v)
+  | ["ensure"] =>
+    match v.ensureInit with
+    | .ok (v', p) => (.buf v' false, s!"ens:{showRange (.ok p)} " ++ showBuf v')
+    | .error f => (.buf v false, showFault f)
+  | ["copyw", a, b, c] =>
+    match a.toNat?, b.toNat?, c.toNat? with
+    | some a, some b, some c => viewOp v false (v.copyWithin a b c)
+    | _, _, _ => (.buf v false, "bad-op")
+  | ["reserve", n] =>
+    match n.toNat? with
+    | some n => reserveOp v n false none
+    | none => (.buf v false, "bad-op")
+  | ["reserve", n, c] =>
+    match n.toNat?, parseAns c with
+    | some n, some c => reserveOp v n false c
+    | _, _ => (.buf v false, "bad-op")
+  | ["reservex", n] =>
+    match n.toNat? with
+    | some n => reserveOp v n true none
+    | none => (.buf v false, "bad-op")
+  | ["reservex", n, c] =>
+    match n.toNat?, parseAns c with
+    | some n, some c => reserveOp v n true c
+    | _, _ => (.buf v false, "bad-op")
+  | ["extend", h, c] =>
+    match parseHex h, parseAns c with
+    | some d, some c => extendOp v d c
+    | _, _ => (.buf v false, "bad-op")
+  | ["wwrite", h, c] =>
+    match parseHex h, parseAns c with
+    | some d, some c => extendOp v d c
+    | _, _ => (.buf v false, "bad-op")
   | ["slice", b, e] =>
     match b.toNat?, parseEnd e with
     | some b, some e => viewOp v true (v.step (.slice b e))
@@ -81,12 +156,7 @@ def bufOp (v : Buf) (w : List String) : St × String :=
   | [cmd, h] =>
     if cmd ≠ "extend" ∧ cmd ≠ "wwrite" then (.buf v false, "bad-op") else
     match parseHex h with
-    | some d =>
-      match v.extend d with
-      | .done v' => (.buf v' false, "ext:ok " ++ showBuf v')
-      | .notSupported => (.buf v false, "ext:unsupported")
-      | .grow => (.buf v false, "ext:grow")
-      | .fault f => (.buf v false, "ext:" ++ showFault f)
+    | some d => extendOp v d none
     | none => (.buf v false, "bad-op")
   | ["reader"] =>
     match v.mkSlice 0 none with
@@ -110,6 +180,51 @@ def readerOp (v : Buf) (w : List String) : St × String :=
     | none => (.buf v true, "bad-op")
   | ["remaining"] => (.buf v false, showBuf v)
   | _ => (.buf v true, "bad-op")
+
+/-! ### read-only roots (`IoBuf` only): `Rc<[u8]>`, `Arc<Vec<u8>>`, `String`, `&'static str`, `Bytes`, … -/
+
+def roKinds : List String := ["rc", "arcvec", "rcbox", "bytes", "sslice", "string", "arcstring", "str"]
+
+def mkRo (k : String) (mem : Bytes) : Option Buf :=
+  if ¬ roKinds.contains k then none
+  else if (k = "string" ∨ k = "arcstring" ∨ k = "str") ∧ mem.any (fun b => b.toNat ≥ 128) then none
+  else some (.root ⟨.boxed, mem.length, mem⟩)
+
+def contentOf (v : Buf) : String :=
+  match v.asInit with
+  | .ok (o, l) => hexOf ((v.getRoot.mem.drop o).take l)
+  | .error f => showFault f
+
+def showRo (v : Buf) : String := s!"i={showRange v.asInit} c={contentOf v}"
+
+def roOp (v : Buf) (rd : Bool) (w : List String) : St × String :=
+  if rd then
+    match w with
+    | ["read", n] =>
+      match n.toNat? with
+      | some n =>
+        match readerRead v n with
+        | .ok (d, v') => (.ro v' true, s!"read:{hexOf d} p={readerProgress v'} i={showRange v'.asInit}")
+        | .error _ => (.ro v true, "panic")
+      | none => (.ro v true, "bad-op")
+    | ["remaining"] => (.ro v false, showRo v)
+    | _ => (.ro v true, "bad-op")
+  else
+    match w with
+    | ["slice", b, e] =>
+      match b.toNat?, parseEnd e with
+      | some b, some e =>
+        match v.mkSlice b e with
+        | .ok s => (.ro s false, showRo s)
+        | .error f => (.none, showFault f)
+      | _, _ => (.ro v false, "bad-op")
+    | ["peel"] => (.ro v.peel false, showRo v.peel)
+    | ["reader"] =>
+      match v.mkSlice 0 none with
+      | .ok s => (.ro s true, s!"reader p=0 i={showRange s.asInit}")
+      | .error f => (.none, showFault f)
+    | ["end"] => (.none, "root " ++ hexOf v.getRoot.mem)
+    | _ => (.ro v false, "bad-op")
 
 def peelAll : Nat → Buf → Buf
   | 0, v => v
@@ -369,6 +484,17 @@ def step (st : St) (line : String) : St × String :=
     match hc.toNat?, tc.toNat?, parseHex h1, parseHex h2 with
     | some hc, some tc, some d1, some d2 => (st, siblingDemo hc tc d1 d2)
     | _, _, _, _ => (st, "bad-op")
+  | ["roroot", k, h] =>
+    match (parseHex h).bind (mkRo k) with
+    | some v => (.ro v false, showRo v)
+    | none => (.none, "bad-op")
+  | ["slicebytes", h, b, e] =>
+    match parseHex h, b.toNat?, parseEnd e with
+    | some mem, some b, some e =>
+      match (Buf.root ⟨.boxed, mem.length, mem⟩).mkSlice b e with
+      | .ok s => (st, "sb " ++ contentOf s)
+      | .error f => (st, showFault f)
+    | _, _, _ => (st, "bad-op")
   | ["root", k, len, h] =>
     match parseRootSpec k len h with
     | some r => (.buf (.root r) false, showBuf (.root r))
@@ -384,6 +510,7 @@ def step (st : St) (line : String) : St × String :=
       if rd then readerOp v w
       else if w = ["end"] then (.none, "root " ++ showRoot v.getRoot)
       else bufOp v w
+    | .ro v rd => roOp v rd w
     | .vec v nest => vecOp v nest w
     | .viter it nest => viterOp it nest w
 
